@@ -405,13 +405,20 @@ def load_model(model_folder: str, model_name: str, compiler_options: Dict[str, s
 
         for key in variables_with_metadata:
             m = db[key + "__metadata_dependent"]
+            # The metadata matrices have one row per scalar element, so an
+            # array variable occupies as many rows as it has elements.
+            row = 0
             for i, d in enumerate(db[key]):
                 variable = variable_dict[d["name"]]
+                n = d["shape"][0] * d["shape"][1]
+                rows = slice(row, row + n)
+                row += n
                 for j, tmp in enumerate(CASADI_ATTRIBUTES):
                     if m[i, j] == _DepMeta.MX_DEPENDENT:
-                        setattr(variable, tmp, metadata[key][i, j])
+                        setattr(variable, tmp, ca.reshape(metadata[key][rows, j], *d["shape"]))
                     elif m[i, j] == _DepMeta.MX_INDEPENDENT:
-                        setattr(variable, tmp, ca.MX(independent_metadata[key][i, j]))
+                        value = ca.reshape(independent_metadata[key][rows, j], *d["shape"])
+                        setattr(variable, tmp, ca.MX(value))
                     else:
                         # Already handled as part of Variable dict. That way
                         # we also do not have to worry about making sure the
